@@ -306,10 +306,20 @@ def udp_job(p, c, t, users, cname, tier, seed, sub):
     big = [2000, 8000, 60000] if tier == "thorough" else []
     napps, ntargets = 3, rng.choice([2, 3])
     names = ["%s/size=%d" % (cname, s) for s in small + big] + [cname + "/isolation"]
+    # native Shadowsocks datagrams travel through a recording UDP hop, so that the wire itself can be looked at
+    wire = None
+    if p == "shadowsocks":
+        wire = T.UdpForwarder()
+        spec["extra"] = {"client_server": {"port": wire.port}}
+        names.append(cname + "/wire-uniqueness")
     try:
         dep = T.Deployment(spec)
     except T.DeploymentError as e:
+        if wire is not None:
+            wire.close()
         return _deploy_failed(names, spec, e)
+    if wire is not None:
+        wire.set_upstream((T.LOOPBACK, dep.server_port))
     res = []
     # the first application names its targets (ATYP 3, "localhost"), the others use IPv4 literals
     apps = [T.UdpApp("a%d" % i, by_name=(i == 0)) for i in range(napps)]
@@ -360,12 +370,41 @@ def udp_job(p, c, t, users, cname, tier, seed, sub):
         res.append(T.result(cname + "/isolation", spec,
                             {"nothing_arrives_at_a_different_application": True, "no_duplicates_no_strays_no_mislabelled_replies": True,
                              "processes_stay_alive_without_panic": True}, o, iso_ok, "; ".join(det)[:1500]))
+        if wire is not None:
+            # every datagram starts with the part that fixes its nonce: the salt (legacy), the 24-byte nonce (2022 chacha) or
+            # AES(session id || packet id) (2022 aes).  Two datagrams of one deployment that begin with the same 16 bytes were
+            # sealed under the same key and nonce - whatever session, association or direction they belong to
+            def dups(pkts):
+                seen, bad = {}, []
+                for i, (b, _peer, _t) in enumerate(pkts):
+                    k = bytes(b[:16])
+                    if len(k) == 16 and k in seen and bytes(pkts[seen[k]][0]) != bytes(b):
+                        bad.append((seen[k], i))
+                    seen.setdefault(k, i)
+                return bad
+            c2s, s2c = list(wire.captured), list(wire.replies)
+            bad_c, bad_s = dups(c2s), dups(s2c)
+            okw = not bad_c and not bad_s and len(s2c) > 0
+            det = []
+            if bad_c:
+                det.append("%d pairs of client->server datagrams begin with the same 16 bytes (same key and nonce), e.g. #%d and #%d" % (len(bad_c), bad_c[0][0], bad_c[0][1]))
+            if bad_s:
+                det.append("%d pairs of server->client datagrams begin with the same 16 bytes (same key and nonce), e.g. #%d and #%d" % (len(bad_s), bad_s[0][0], bad_s[0][1]))
+            if not s2c:
+                det.append("no server->client datagram was seen on the wire")
+            res.append(T.result(cname + "/wire-uniqueness", spec,
+                                {"property": "no two ciphertexts under one key share a nonce", "nonce_fixing_prefix_of_every_datagram": "pairwise distinct, both directions, across all sessions and associations of the deployment"},
+                                {"client_to_server_datagrams": len(c2s), "server_to_client_datagrams": len(s2c), "client_sources": len({x[1] for x in c2s}),
+                                 "example_collisions": [[s2c[i][0][:24].hex(), s2c[j][0][:24].hex()] for i, j in bad_s[:2]] + [[c2s[i][0][:24].hex(), c2s[j][0][:24].hex()] for i, j in bad_c[:2]]},
+                                okw, "; ".join(det)))
     finally:
         for a in apps:
             a.close()
         for tg in targets:
             tg.close()
         dep.stop()
+        if wire is not None:
+            wire.close()
     return res
 
 
